@@ -209,7 +209,57 @@ def sc_truncated(ident, n_lock, n_spawn):
                           barrier=False, truncated=True))
 
 
-def sc_done_marker(ident, pre, nsched, concurrent, real_first):
+def sc_triple(ident, n_lock, hold=2.5):
+    """C05 (c): three launches of one job, the first ending WITHOUT success.  The three experiments are held at the
+    job-lock line (nothing seen).  x0 launches P0 and x1, right behind it, P1 (forced double launch): one of them
+    gets the lock, its body lasts `hold` seconds and fails, the other one waits for the lock and then runs the body;
+    when that second body has begun x2 is let go: it must block on the job lock until the body has ended (and its
+    process then finds the marker) - whatever happened to the lock file in between."""
+    funcs = ["aio_submit"] + KILLFUNCS
+    runs, script = [], []
+    for k in range(3):
+        runs.append(dict(sid=f"S{k}", slot=k, run=0, xpname=f"x{k}", pause=dict(n=n_lock, funcs=funcs, until=f"go{k}")))
+        script.append(dict(when={"t": 0}, do={"start": [f"S{k}", 0]}))
+    allp = {"all": [{"log": rf"^S{k} 0 PAUSE "} for k in range(3)]}
+    script.append(dict(when=allp, do={"touch": "go0"}))
+    # x1 takes the job lock as soon as x0 has released it, before P0 (still starting) gets it: P0 and P1 both queue
+    script.append(dict(when={"all": [allp, {"log": r"^S0 0 R aio_run 1 "}]}, do={"touch": "go1"}))
+    script.append(dict(when={"all": [allp, {"log": r"(?s)^begin 1 .*^begin 1 "}]}, do={"touch": "go2"}))
+    script.append(dict(when={"t": 30}, do={"touch": "go2"}, optional=True))
+    return dict(id=ident, kind="one", tags=[1], timeout=55, files={"hold.1": str(hold), "latch.all": "", "fail.1": "1"},
+                runs=runs, script=script,
+                meta=dict(family="compete", nsched=3, delays=[], hold=hold, fail_first=True, kill=None, latch_at=None,
+                          barrier=False, triple=True))
+
+
+def sc_linger(ident, sig="KILL", linger=4.0):
+    """C11: chain of two jobs; the process of the first one goes on working for `linger` seconds after its body
+    returned (marker written, pid file still there, a non-daemon thread logs "late" at the very end).  The scheduler
+    is killed as soon as the body has ended; the experiment is run again at once: the dependent may only begin
+    once the process of its dependency is gone, as in a run that was not killed."""
+    sc = sc_restart(ident, "chain2", {"phase": "between:1"}, "free", sig)
+    sc["files"]["linger.1"] = str(linger)
+    sc["meta"]["linger"] = linger
+    return sc
+
+
+def sc_silent_eoj(ident, sig="KILL", silence=4.0):
+    """C11: the end-of-job report of the job process hangs (a notification URL that accepts the connection and
+    never answers) for `silence` seconds.  The scheduler is killed as soon as the body has ended and the experiment is
+    run again while the job process is still in its clean-up: the body must not run again."""
+    runs = [dict(sid="S0", slot=0, run=0, xpname="x"), dict(sid="S0", slot=0, run=1, xpname="x")]
+    script = [dict(when={"t": 0}, do={"silent_server": "silent_url"}),
+              dict(when={"after": [0, 0.0]}, do={"start": ["S0", 0]}),
+              dict(when={"log": r"^end 1 \d+ ok"}, do={"kill": ["S0", 0, sig]}),
+              dict(when={"dead": ["S0", 0]}, do={"start": ["S0", 1]}),
+              dict(when={"any": [{"dead": ["S0", 1]}, {"after": [3, silence + 4.0]}]}, do={"close_server": "silent_url"}),
+              dict(when={"after": [2, silence]}, do={"close_server": "silent_url"}, optional=True)]
+    return dict(id=ident, kind="one", tags=[1], timeout=45, files={"latch.all": ""}, runs=runs, script=script,
+                meta=dict(family="restart", kind="one", kill={"phase": "end:1"}, latch="free", sig=sig, second_kill=None,
+                          silent_eoj=True))
+
+
+def sc_done_marker(ident, pre, nsched, concurrent, real_first, exit0=False):
     """C05 (b): the success marker is there (made by hand, or by a real first experiment); later
     experiments submit the job"""
     runs, script = [], []
@@ -229,11 +279,24 @@ def sc_done_marker(ident, pre, nsched, concurrent, real_first):
         else:
             when = {"dead": [f"S{k - 1}", 0]}
         script.append(dict(when=when, do={"start": [sid, 0]}))
+    if exit0:
+        files["exit0.all"] = ""     # the body ends with sys.exit(0) instead of returning
     sc = dict(id=ident, kind="one", tags=[1], timeout=50, files=files, runs=runs, script=script,
-              meta=dict(family="done-marker", pre=pre, nsched=nsched, concurrent=concurrent, real_first=real_first))
+              meta=dict(family="done-marker", pre=pre, nsched=nsched, concurrent=concurrent, real_first=real_first,
+                        exit0=exit0))
     if pre and not real_first:
         sc["pre"] = {"1": pre}
     return sc
+
+
+def sc_threaddup(ident, offsets, delay=0.6):
+    """C05 (a), threads: duplicates submitted from other threads `offsets` seconds after the first submission began,
+    i.e. (offset < delay) while it is still computing its output"""
+    return dict(id=ident, kind="one", tags=[1], timeout=50, files={},
+                runs=[dict(sid="S0", slot=0, run=0, xpname="t", trace=False,
+                           workload=dict(kind="threaddup", tags=[1], offsets=offsets, delay=delay))],
+                script=[dict(when={"t": 0}, do={"start": ["S0", 0]})],
+                meta=dict(family="threaddup", offsets=offsets, delay=delay))
 
 
 def sc_history(ident, ops):
